@@ -16,7 +16,7 @@ LEVEL_TEXT = ('For seeded circuits, delays and multi-transition stimuli on a dya
 LEVEL_NOTE = 'trusted: vk/wave.py STA/decoder, vk/graph.py; exact float32 arithmetic on the grid (no tolerance anywhere)'
 DESIGN_REF = 'DESIGN.md section 3 C04'
 LEVEL = 'exploration'
-RULE = ('Cases as C03 (memory reuse off so every line is observable), single delay dataset. Non-trivial iff some waveform has >= 2 finite entries. '
+RULE = ('Cases as C03 (mostly memory reuse off so every line is observable; one case in five with reuse on, where only the captured rows are checked; one in three on a simulator object that processed another stimulus before), single delay dataset. Non-trivial iff some waveform has >= 2 finite entries. '
         'Distinct = digest of all case fields incl. shift / scale.')
 ASSUMPTIONS = ['times k/4 with k < 1024, delays k/4 with k < 64, shifts in {1/4..64}, scales 2^-16..2^10: every sum is exact in float32',
                'strict monotonicity is only demanded when all four delay entries of every line are equal']
@@ -32,7 +32,7 @@ def plan(tier, seed):
 def conclude(agg):
     c = agg['counters']
     return [f'monitor counter {k} is zero' for k in ('transitions_in_window', 'shift_pairs', 'scale_pairs', 'monotonic_waveforms',
-                                                     'multi_transition_waveforms', 'capture_window_rows', 'zero_delay_lines', 'reached/pulse-filter')
+                                                     'multi_transition_waveforms', 'capture_window_rows', 'zero_delay_lines', 'reached/pulse-filter', 'reused_simulator_cases')
             if c.get(k, 0) == 0]
 
 
@@ -40,8 +40,17 @@ def check_case(case, ctx):
     r = WC.materialize(case)
     net, n, b = r.net, r.sims, r.b
     nontrivial = False
+    reuse = bool(case.get('c_reuse'))       # with memory reuse only the captured rows are observable
     with ctx.guard('simulation-raises', case):
-        sim = WC.make_sim(r, c_reuse=False)
+        sim = WC.make_sim(r, c_reuse=reuse)
+        if case.get('epochs', 1) > 1:
+            # the simulator object saw another stimulus before (batch processing): stale waveforms must not leak into this run
+            other = WC.materialize(dict(case, stim_seed=case['stim_seed'] + 31), b=b).stim
+            keep = r.stim
+            r.stim = other
+            WC.simulate(r, sim)
+            r.stim = keep
+            ctx.count('reused_simulator_cases')
         WC.simulate(r, sim)
         c = np.asarray(sim.c).copy()
         s = np.asarray(sim.s).copy()
@@ -49,7 +58,7 @@ def check_case(case, ctx):
         ctx.count('zero_delay_lines', int((d.reshape(len(d), -1).max(axis=1) == 0).sum()))
         deps = W.line_deps(b.c, strip_forks=case['strip_forks'])
         ear, lat = W.sta_windows(b.c, deps, d, r.stim, b, n)
-        for li in b.line_sig:
+        for li in ([] if reuse else b.line_sig):
             loc, cap = int(sim.c_locs[li]), int(sim.c_caps[li])
             for lane in range(n):
                 init, times, term = W.decode_col(c[loc:loc + cap, lane])
@@ -88,13 +97,13 @@ def check_case(case, ctx):
         # metamorphic: shift
         rr = random.Random(case['stim_seed'] ^ 0xC04)
         shift = rr.choice([0.25, 0.5, 1.0, 3.75, 16.0, 64.0])
-        sim2 = WC.make_sim(r, c_reuse=False)
+        sim2 = WC.make_sim(r, c_reuse=reuse)
         WC.simulate(r, sim2, shift=shift)
         c2 = np.asarray(sim2.c)
         fin = (c > W.TMIN) & (c < W.TMAX)
         expc = np.where(fin, c + np.float32(shift), c)
         ctx.count('shift_pairs')
-        if not np.array_equal(expc, c2):
+        if not reuse and case.get('epochs', 1) == 1 and not np.array_equal(expc, c2):
             i, j = [int(x[0]) for x in np.nonzero(expc != c2)]
             ctx.violation('rigid-shift', f'shifting every input transition by {shift} does not shift memory row {i} lane {j}: {c[i, j]} -> {c2[i, j]}; '
                           f'{case["cls"]} caps={case["caps"]}; {G.net_text(net)[:400]}', dict(case, shift=shift))
@@ -113,12 +122,18 @@ def check_case(case, ctx):
         # metamorphic: scale times and delays by 2^k
         k = rr.choice([-2, -1, 1, 2, 3, -12, -16, 10])      # extreme scales stay exact in float32 (only the exponent changes)
         sc = 2.0 ** k
-        sim3 = WC.make_sim(r, c_reuse=False, delays=(r.delays * r.delays.dtype.type(sc))[0])
+        sim3 = WC.make_sim(r, c_reuse=reuse, delays=(r.delays * r.delays.dtype.type(sc))[0])
         WC.simulate(r, sim3, scale=sc)
         c3 = np.asarray(sim3.c)
         ctx.count('scale_pairs')
         exps = np.where(fin, c * np.float32(sc), c)
-        if not np.array_equal(exps, c3):
+        s3 = np.asarray(sim3.s)
+        for k4 in (4, 5):
+            f4 = (s[k4] > W.TMIN) & (s[k4] < W.TMAX) & cap_rows[:, None]
+            if not np.array_equal(np.where(f4, s[k4] * np.float32(sc), s[k4])[cap_rows], s3[k4][cap_rows]):
+                ctx.violation('rigid-scale', f's[{k4}] does not scale by {sc}; reuse={reuse}; {G.net_text(net)[:400]}', dict(case, scale=sc))
+                return
+        if not reuse and case.get('epochs', 1) == 1 and not np.array_equal(exps, c3):
             i, j = [int(x[0]) for x in np.nonzero(exps != c3)]
             ctx.violation('rigid-scale', f'scaling times and delays by {sc} does not scale memory row {i} lane {j}: {c[i, j]} -> {c3[i, j]}; {G.net_text(net)[:400]}',
                           dict(case, scale=sc))
@@ -131,7 +146,8 @@ def run(spec, ctx):
     for i in range(spec['n']):
         rng = random.Random(f'C04/{spec["seed"]}/{spec["shard"]}/{i}')
         case = WC.gen_case(rng, multi=True if i % 3 else None)
-        case['c_reuse'] = False
+        case['c_reuse'] = (i % 5 == 4)
+        case['epochs'] = 2 if i % 3 == 2 else 1
         if i % 4 == 0:
             case['polind'] = True
         check_case(case, ctx)
